@@ -17,8 +17,8 @@ CHECKS = {
              technique=DFCC + ', uninterpreted float arithmetic (UF)', ref='5 (C13), 9'),
  'C14': dict(text='For every enumerated instantiation (shape, axis permutation, element type incl. complex, ISA, C++ standard) the contract "out(i[p[0]],..,i[p[k]]) == A(i[0],..,i[k]) for every multi-index (conjugated for ctrans), permutation<> consistent between extents and elements, round trip is the identity, nothing else written, no access outside the operands" is enforced on the translated real code by goto-instrument --dfcc and discharged by CBMC for all element values.',
              technique=DFCC + ', symbolic data (SYM) / uninterpreted float arithmetic for ctrans in sums', ref='5 (C14), 2, 3, 9'),
- 'C15': dict(text='BOUNDED stand-in, not a proof: 3- and 4-operand einsum networks on int tensors whose elements are constructed single bits {0,1}; every result element equals the full Einstein sum in declared free-index order, for all 2^n assignments (SAT-exhaustive), index topologies and extents enumerated so that different pairings are cheapest. Lifting to all values is not machine-checked.',
-             technique='bounded check (value domain {0,1}, exhaustive by SAT) of the contract on clang-IR-extracted entry points; labelled bounded', ref='5 (C15), 4 (B01)', category='other'),
+ 'C15': dict(text='For 3-, 4- and 5-operand einsum networks (chain, star, cycle, free index on an inner operand, operand sharing nothing; extents chosen so that different plans of the cost model are cheapest; int, float, double; 3 ISAs): every result element equals the full Einstein sum in declared free-index order, for all element values. Decided per instance by two contract runs: TAGS (the code is multilinear in its operands and oblivious) and BASIS (agreement on all tuples of basis elements, symbolic one-hot positions); the step "a multilinear map is determined by its basis values" is a pen-and-paper lemma. Floats: polynomial identity (exact for integer-valued data).',
+             technique=DFCC + ', degree typing (TAGS) + symbolic basis evaluation (BASIS) for multilinear code', ref='5 (C15), 9.4'),
  'C06': dict(text='Lemma over the contracts of the other properties: the same functional contract is enforced on the code compiled under every configuration of a grid (6 ISAs x C++14/17 x IR pipelines -O0/-O1/-O2 x runtime checks x one tuning macro at a time) for a seeded sample of their cases, hence results agree across the grid (bit-identical for integer/boolean and SYM/UF float clauses). Acceptance (accepted in one configuration => accepted in all) is checked with clang++/g++ -fsyntax-only: a supporting static fact.',
              technique=DFCC + ' re-enforced per build configuration; compiler acceptance matrix', ref='5 (C06), 9'),
 }
